@@ -14,7 +14,8 @@ TECHNIQUE = ('must-pass-through dataflow on generate_evaluation_code; path condi
              'zerodivision_check assignments evaluated as truth tables over the COMPLETE valuation domain of their atoms (whitelisted '
              'expression evaluator, nothing from /repo is executed); name/arity/substitution-key agreement between the emitted '
              '__Pyx_div_/__Pyx_mod_ calls, UtilityCode.specialize and the CMath.c sections; construction-site scan for synthesised '
-             'DivNode/ModNode; clang AST comparison of the declared copies in Optimize.c with DivInt/ModInt')
+             'DivNode/ModNode; clang AST comparison of the declared copies in Optimize.c with DivInt/ModInt; finite-domain interpretation of '
+             'InPlaceAssignmentNode.generate_execution_code (checker-owned evaluator, every undetermined test forks) for each division operator')
 DECIDES = ('(WARN) every generate_evaluation_code of the DivNode family calls generate_div_warning_code on every path, after the operands were evaluated; '
            '(ZGUARD) the ZeroDivisionError emission in generate_div_warning_code is guarded by nothing but zerodivision_check and "not a Python object", and tests operand2; '
            '(ZDC) zerodivision_check is true whenever cdivision is undecided, the scoped directive is off and the divisor is not a non-zero constant; '
@@ -23,9 +24,12 @@ DECIDES = ('(WARN) every generate_evaluation_code of the DivNode family calls ge
            '(HELPER) the emitted __Pyx_div_<T>/__Pyx_mod_<T> calls match a CMath.c section the same class loads: name key filled by UtilityCode.specialize from the same type expression, '
            'same arity, every %(key)s of the section provided; (ADJ) every floor-adjustment predicate of the helpers (CMath.c, Builtins.c divmod, Optimize.c) equals `remainder != 0 and sign(remainder) != sign(divisor)` '
            'on the complete sign domain, enclosing `if (remainder)` guards included; (DSCOPE) a transform that analyses an arithmetic node it built installs the block-level directives first; (SEL) the helper call is emitted only when cdivision is false and the plain C operator only when cdivision or truedivision is set; '
-           '(PIN) every DivNode/ModNode synthesised outside the parser with a constant operator pins cdivision; (SIB1) the Optimize.c copies equal DivInt/ModInt.')
+           '(PIN) every DivNode/ModNode synthesised outside the parser with a constant operator pins cdivision; (SIB1) the Optimize.c copies equal DivInt/ModInt; '
+           '(INPLACE) the in-place statement node, which emits `lhs op= rhs` in plain C and thereby bypasses DivNode/ModNode, hands a DivNode-family operator (/ // %) on a C integer target to an '
+           'emitting call with cdivision off only on paths that also report a compile error (rules/sC03.py; the generic `lhs op= rhs` emission is a pending finding, see sC03.PENDING).')
 NOT_DECIDED = ('how the adjustment predicate is combined with quotient and remainder (q - adapt, r + adapt*b), the MIN / -1 overflow guard (C36/C04), float division, and the C semantics of '
-               'the chosen operators; whether the path conditions of use_utility_code and of the emitted call coincide exactly.')
+               'the chosen operators; whether the path conditions of use_utility_code and of the emitted call coincide exactly; which targets ExpandInplaceOperators leaves un-expanded '
+               '(INPLACE checks the code generator of whatever survives, for every shape of target).')
 ASSUMPTIONS = ['code.globalstate.directives is the scoped directive set during code generation (CompilerDirectivesNode swaps it around its body)']
 EXEMPT = {}
 MUTATIONS = [   # (file, single edit, rule that reported it) -- all run on a scratch copy, every variant was reported with exit 1
@@ -48,6 +52,13 @@ MUTATIONS = [   # (file, single edit, rule that reported it) -- all run on a scr
     ('Cython/Utility/Optimize.c', 'PyLongBinop: x += ((x != 0) & ((x ^ b) < 0)) * b -> * a', 'C03-SIB'),
     ('Cython/Compiler/ParseTreeTransforms.py', "cmod(): drop `node.cdivision = True`", 'C03-PIN'),
     ('Cython/Compiler/Optimize.py', "_build_range_step_calculation: revert fix fee9625a1 (drop cdivision=False)", 'C03-PIN'),
+    ('Cython/Compiler/Nodes.py', "seed C03b: InPlaceAssignmentNode guard tests the source operator `operator in ('/', '%')`, so '//' slips through", 'C03-INPLACE'),
+    ('Cython/Compiler/Nodes.py', 'InPlaceAssignmentNode.generate_execution_code: drop the "In-place non-c divide operators" guard', 'C03-INPLACE'),
+    ('Cython/Compiler/Nodes.py', "guard `c_op in ('/', '%')` -> `c_op == '/'` (%= on int buffers accepted)", 'C03-INPLACE'),
+    ('Cython/Compiler/Nodes.py', "guard: `not code.globalstate.directives['cdivision']` -> `code.globalstate.directives['cdivision']`", 'C03-INPLACE'),
+    ('Cython/Compiler/Nodes.py', 'guard gets the extra conjunct `lhs.is_memview_index` (buffer targets no longer rejected)', 'C03-INPLACE'),
+    ('Cython/Compiler/Nodes.py', 'behaviour-preserving: error() moved after generate_buffer_setitem_code (error() only records); c_op computed by a conditional expression from a renamed local '
+                                 'and the guard written with De Morgan over the source operator in (/, //, %); guard as three nested ifs with the directive in a local, f-string in the C++ branch', 'silent'),
     ('behaviour-preserving (all silent)', '`if not is_pyobject:` nesting turned into an early return; local zero_test renamed; zerodivision_check formula rewritten with De Morgan; '
                                           'ModNode.calculate_result_code branches reordered (`if not self.cdivision` first, %-format instead of f-string); an unrelated method added', 'silent'),
 ]
@@ -555,6 +566,8 @@ def run(ctx):
     from ..rules import dscope, flooradj
     rules.append(dscope.rule_dscope(ctx))
     rules.append(flooradj.rule_adj(ctx))
+    from ..rules import sC03
+    rules.append(sC03.rule_inplace(ctx))
     return rules
 
 
